@@ -63,7 +63,10 @@ func (l *ListSearch) sendNewLoc(operation chan<- Task, task Task) {
 
 func (l *ListSearch) updateMajor(operation chan<- Task, task Task) {
 	// Update the best value seen so far, and send a MajorIteration.
-	if l.bestIdx == -1 || task.F < l.bestF || math.IsNaN(l.bestF) {
+	// Results arrive in completion order when several tasks are used: ties
+	// (and NaNs) are decided by the position in the list, as in a serial run.
+	sameF := task.F == l.bestF || (math.IsNaN(task.F) && math.IsNaN(l.bestF))
+	if l.bestIdx == -1 || task.F < l.bestF || (math.IsNaN(l.bestF) && !math.IsNaN(task.F)) || (sameF && task.ID < l.bestIdx) {
 		l.bestF = task.F
 		l.bestIdx = task.ID
 	} else {
